@@ -59,8 +59,7 @@ Fixpoint first_row (sc : scheme) (scores : list Z) (prev_val prev_tr : Z) (j : n
                   else prev_val + (if Z.eqb prev_tr T_LEFT then sc_extend sc else sc_open sc) in
       let '(v, tr) := if (fnew <? m) && (0 <? m) then (m, T_DIAG)
                       else if 0 <? fnew then (fnew, T_LEFT) else (0, T_DIAG) in
-      let maxa := if Nat.eqb j 0 then v + sc_open sc
-                  else v + (if Z.eqb prev_tr T_LEFT then sc_extend sc else sc_open sc) in
+      let maxa := v + sc_open sc in     (* a gap below a first-row cell is always opened there *)
       (v, tr, maxa) :: first_row sc t v tr (S j)
   end.
 
